@@ -26,8 +26,16 @@ def main(argv):
         prog = Program()
         chk.program = prog
         mod = importlib.import_module("props.%s" % pid.lower())
-        explanation = mod.run(chk, prog, tier)
-        return chk.finish(explanation or mod.__doc__ or pid)
+        from sa import lints
+        try:
+            explanation = mod.run(chk, prog, tier)
+        except AnalysisError as e:
+            # the property's own engine could not go on; the shape lints below are independent of it and still run
+            chk.error("analysis aborted: %s" % e)
+            explanation = None
+        lints.run_for(chk, prog, pid, extra_files=getattr(mod, "LINT_EXTRA_FILES", ()))
+        explanation = (explanation or mod.__doc__ or pid) + "\n\nShared lints run on this property's anchor files (sa/lints.py):\n" + lints.__doc__
+        return chk.finish(explanation)
     except AnalysisError as e:
         print("ANALYSIS-ERROR property=%s %s" % (pid, e))
         try:
